@@ -32,3 +32,8 @@ From RV Require Import Btree.Guard.
 (* the value insert_reserve stores before the caller writes: value_length zero bytes (<&[u8]>::initialize is a no-op) *)
 Definition blank_bytes (v : bytes) : bytes := List.map (fun _ => 0%N) v.
 Definition m_apply_gop := @Guard.apply_gop key bytes key_cmp key_size val_size.
+
+(* equality of entries (snapshot_matches of RangeMut compares leaf pages) *)
+Definition bytes_eqb (a b : bytes) : bool := match lex_cmp a b with Eq => true | _ => false end.
+Definition entry_eqb (x y : key * bytes) : bool :=
+  match key_cmp (fst x) (fst y) with Eq => bytes_eqb (snd x) (snd y) | _ => false end.
